@@ -54,7 +54,7 @@ func init() {
 		p := make([]byte, bufLen)
 		finished := false
 		for {
-			if len(sh.VerifLines()) > 0 || len(sh.VerifServerMessages()) > 0 {
+			if sh.VerifReadPending() > 0 || len(sh.VerifLines()) > 0 || len(sh.VerifServerMessages()) > 0 {
 				n, _ := sh.Read(p)
 				if n > 0 {
 					frames = append(frames, append([]byte(nil), p[:n]...))
